@@ -23,15 +23,6 @@ Variable g : graph.
 Variable n : nat.
 Hypothesis Hn : fuel g <= n.
 
-Definition Kp (p : path) : Prop := has_seq3 p = false.
-
-Lemma Kseq_of l : has_seq3 (Seq l) = false -> Kseq Kp nullable l.
-Proof.
-  simpl. rewrite orb_false_iff, andb_false_iff, existsb_false. intros [[H|H] H2].
-  - split; auto. left. destruct (length l) as [|[|[|k]]]; try discriminate; lia.
-  - split; auto. right. intros Hf. apply forallb_Forall in Hf. change (forallb nullable l = false) in H. congruence.
-Qed.
-
 Lemma neg_clean_of l : wfp (Neg l) = true -> has_ninv (Neg l) = false -> neg_clean l.
 Proof.
   simpl. rewrite negb_false_iff, is_nil_true, forallb_forall. intros Hw Hiv a Ha.
@@ -44,25 +35,24 @@ Qed.
 
 (* every evaluator meets the specification relation, for every binding of the ends *)
 Theorem eval_spec p : wfp p = true -> has_ninv p = false ->
-  ev_spec g (eval g n p) (path_rel g p) (Kp p).
+  ev_spec g (eval g n p) (path_rel g p) True.
 Proof.
   induction p as [q|a IH|l IH|l IH|a m IH|l] using path_ind2; intros Hw Hi.
-  - eapply ev_spec_weaken; [|apply ev_iri_spec]. auto.
+  - apply ev_iri_spec.
   - simpl. apply ev_inv_spec. apply IH; auto.
   - simpl in Hw, Hi. rewrite andb_true_iff, negb_true_iff, forallb_forall in Hw.
     rewrite existsb_false in Hi. destruct Hw as [Hne Hw].
-    eapply ev_spec_weaken; [apply Kseq_of|].
-    apply (ev_seq_spec g (fun a => eval g n a) (fun a => path_rel g a) Kp nullable).
+    eapply ev_spec_weaken; [|apply (ev_seq_spec g (fun a => eval g n a) (fun a => path_rel g a) (fun _ => True))].
+    + intros _ a _. exact I.
     + intros a. apply path_rel_RN.
-    + intros a b. apply refl_nullable.
     + destruct l; [discriminate|congruence].
     + rewrite Forall_forall in IH |- *. intros a Ha. apply IH; auto.
   - simpl in Hw, Hi. rewrite forallb_forall in Hw. rewrite existsb_false in Hi.
-    eapply ev_spec_weaken; [|apply (ev_alt_spec g (fun a => eval g n a) (fun a => path_rel g a) Kp)].
-    + unfold Kp. simpl. rewrite existsb_false. auto.
+    eapply ev_spec_weaken; [|apply (ev_alt_spec g (fun a => eval g n a) (fun a => path_rel g a) (fun _ => True))].
+    + intros _ a _. exact I.
     + rewrite Forall_forall in IH |- *. intros a Ha. apply IH; auto.
   - simpl. apply ev_mul_spec; auto. apply path_rel_RN.
-  - eapply ev_spec_weaken; [|apply ev_neg_spec; apply neg_clean_of; auto]. auto.
+  - apply ev_neg_spec; apply neg_clean_of; auto.
 Qed.
 
 End M.
@@ -75,49 +65,25 @@ Proof.
   injection Heq as -> ->. auto.
 Qed.
 
-Lemma dup_free g p : forall s o l,
-  closure_top p = true -> wfp p = true -> has_ninv p = false ->
-  cond g (has_seq3 p = false) s o ->
-  dup_trigger g p s o = false ->
-  eval g (fuel g) p s o = Ok l -> NoDup l.
+Lemma mul_pre_NoDup z s o : NoDup (mul_pre z s o).
 Proof.
-  induction p as [q|a IH|l0|l0|a IH m|l0]; intros s o l Hc Hw Hi Hk Ht He; try discriminate.
+  unfold mul_pre. destruct z; [|constructor].
+  destruct s as [a|], o as [b|]; try destruct (N.eqb a b); repeat constructor; simpl; tauto.
+Qed.
+
+(* unconditional: whatever the inner evaluators do, the [done] filter (which holds
+   the zero-length pair from the start) lets no pair through twice *)
+Lemma dup_free g n p : forall s o l,
+  closure_top p = true -> eval g n p s o = Ok l -> NoDup l.
+Proof.
+  induction p as [q|a IH|l0|l0|a IH m|l0]; intros s o l Hc He; try discriminate.
   - simpl in *. unfold ev_inv in He.
-    destruct (eval g (fuel g) a o s) as [l1| |] eqn:E; try discriminate.
-    simpl in He. injection He as <-. apply NoDup_map_swap.
-    apply (IH o s l1); auto. unfold cond in *. destruct Hk as [?|[? ?]]; [left; auto|right; auto].
-  - clear IH. simpl in Hw, Hi, Hk. cbn [eval] in He. unfold ev_mul in He.
-    pose proof (eval_spec g (fuel g) (le_n _) a Hw Hi) as Hf.
-    destruct (mul_raw_spec g (eval g (fuel g) a) (path_rel g a) (has_seq3 a = false) (fuel g) m
-                Hf (path_rel_RN g a) (le_n _) s o Hk) as (r & Hr & Hin).
-    rewrite Hr in He. simpl in He. injection He as <-.
-    assert (Hd : NoDup (dedup pr_eqb r)) by (apply dedup_NoDup, pr_eqb_spec).
-    (* the only possible duplicate is the zero-length pair *)
-    assert (Hx : forall x, (match s with Some x => Some x | None => o end) = Some x ->
-                 mod_zero m = true -> end_ok s x = true -> end_ok o x = true ->
-                 ~ In (x, x) r).
-    { intros x Hsx Hz Hs Ho Hxr.
-      cbn [dup_trigger] in Ht. rewrite Hz, Hsx, Hs, Ho in Ht. simpl in Ht.
-      assert (Hmem : memb pr_eqb (x, x)
-                (rel_set (universe g s o) g match m with ZeroOrOne => a | _ => Mul a OneOrMore end) = true).
-      { apply (memb_In pr_eqb pr_eqb_spec).
-        assert (HU : incl (nodes g) (universe g s o)) by (intros v Hv; apply universe_In; auto).
-        apply (rel_set_RS g (universe g s o) HU).
-        assert (HxU : In x (universe g s o)).
-        { apply universe_In. destruct s; [left; congruence|right; left; auto]. }
-        split; [|auto].
-        apply Hin in Hxr.
-        assert (Hrel : if mod_more m then tc (path_rel g a) x x else path_rel g a x x).
-        { destruct s, o; try discriminate; tauto. }
-        destruct m; simpl in *; auto. }
-      congruence. }
-    unfold mul_pre. destruct (mod_zero m) eqn:Hz; [|exact Hd].
-    destruct s as [x|], o as [y|]; simpl.
-    + destruct (N.eqb_spec x y); [|exact Hd]. subst y. constructor; auto.
-      rewrite deduppr_In. apply Hx; simpl; auto; apply N.eqb_refl.
-    + constructor; auto. rewrite deduppr_In. apply Hx; simpl; auto; apply N.eqb_refl.
-    + constructor; auto. rewrite deduppr_In. apply Hx; simpl; auto; apply N.eqb_refl.
-    + exact Hd.
+    destruct (eval g n a o s) as [l1| |] eqn:E; try discriminate.
+    simpl in He. injection He as <-. apply NoDup_map_swap. eapply IH; eauto.
+  - cbn [eval] in He. unfold ev_mul in He.
+    destruct (mul_raw g n (eval g n a) m s o) as [r| |]; try discriminate.
+    simpl in He. injection He as <-.
+    apply (dedup_acc_NoDup pr_eqb pr_eqb_spec). apply mul_pre_NoDup.
 Qed.
 
 (* ---------------------------------------------------------------- the tie *)
@@ -138,39 +104,34 @@ Qed.
 
 Record kf0 (c : case) : Prop := {
   k_sparql : c_sparql c = true -> has_empty_neg (c_path c) = false;
-  k_ninv : has_ninv (c_path c) = false;
-  k_seq3 : cond (c_g c) (has_seq3 (c_path c) = false) (c_s c) (c_o c);
-  k_dup : dup_trigger (c_g c) (c_path c) (c_s c) (c_o c) = false }.
+  k_ninv : has_ninv (c_path c) = false }.
 
 Lemma kf_zero c : kf c = 0%N -> kf0 c.
 Proof.
   unfold kf. destruct (has_ninv (c_path c)) eqn:E1.
   - destruct (c_sparql c); simpl; discriminate.
   - destruct (c_sparql c) eqn:E0, (has_empty_neg (c_path c)) eqn:E2; simpl; try discriminate;
-    (destruct (has_seq3 (c_path c)) eqn:E3; simpl;
-     [destruct (end_nd (c_g c) (c_s c)) eqn:E4, (end_nd (c_g c) (c_o c)) eqn:E5; simpl; try discriminate|];
-     destruct (dup_trigger (c_g c) (c_path c) (c_s c) (c_o c)) eqn:E6; try discriminate; intros _;
-     constructor; auto; try congruence; try (right; auto; fail); try (left; auto; fail)).
+      intros _; constructor; auto; congruence.
 Qed.
 
 Lemma model_obs_eval c : kf0 c ->
   model_obs c = eval (c_g c) (fuel (c_g c)) (c_path c) (c_s c) (c_o c).
 Proof.
-  intros [H1 H2 _ _]. unfold model_obs. destruct (c_sparql c); auto.
+  intros [H1 H2]. unfold model_obs. destruct (c_sparql c); auto.
   rewrite H1, xlate_id; auto.
 Qed.
 
 Theorem sound_complete g p s o :
-  wfp p = true -> has_ninv p = false -> cond g (has_seq3 p = false) s o ->
+  wfp p = true -> has_ninv p = false ->
   exists l, eval g (fuel g) p s o = Ok l
             /\ forall x y, In (x, y) l <-> path_rel g p x y /\ ends_ok g s o x y.
-Proof. intros Hw Hi Hc. exact (eval_spec g (fuel g) (le_n _) p Hw Hi s o Hc). Qed.
+Proof. intros Hw Hi. exact (eval_spec g (fuel g) (le_n _) p Hw Hi s o (or_introl I)). Qed.
 
 Theorem spec_ok_model c : wf c -> kf c = 0%N -> spec_ok c (model_obs c) = true.
 Proof.
   intros Hw Hk. apply kf_zero in Hk. rewrite model_obs_eval by auto.
-  destruct Hk as [H1 H2 H3 H4]. unfold wf in Hw.
-  destruct (sound_complete (c_g c) (c_path c) (c_s c) (c_o c) Hw H2 H3) as (l & Hl & Hin).
+  destruct Hk as [H1 H2]. unfold wf in Hw.
+  destruct (sound_complete (c_g c) (c_path c) (c_s c) (c_o c) Hw H2) as (l & Hl & Hin).
   rewrite Hl. unfold spec_ok. apply andb_true_iff. split.
   - apply (seteqb_spec pr_eqb pr_eqb_spec). intros [x y]. rewrite Hin, expected_spec. tauto.
   - destruct (closure_top (c_path c)) eqn:Ec; auto.
@@ -205,8 +166,25 @@ Proof.
   intros Hz H. cbn [eval] in H. unfold ev_mul in H. rewrite Hz in H.
   destruct H as [H|[H|H]];
     match type of H with rmap _ ?r = _ => destruct r; try discriminate end;
-    simpl in H; rewrite ?N.eqb_refl in H; injection H as <-; simpl; auto.
+    simpl in H; rewrite ?N.eqb_refl in H; injection H as <-;
+    apply (dedup_acc_In pr_eqb pr_eqb_spec); left; simpl; auto.
 Qed.
+
+(* ---------------------------------------------------------------- the historical code *)
+(* before the F4d fix: p3*/q4*/p3* backwards from a term that is not in the (empty) graph *)
+Lemma hist_seq_bw_refuted :
+  let g : graph := [] in
+  let l := [ev_mul g 1 (ev_iri g 3%N) ZeroOrMore; ev_mul g 1 (ev_iri g 4%N) ZeroOrMore;
+            ev_mul g 1 (ev_iri g 3%N) ZeroOrMore] in
+  hist_seq_bw l None (Some 1%N) = Ok [] /\ seq_bw l None (Some 1%N) = Ok [(1, 1)]%N.
+Proof. vm_compute. split; reflexivity. Qed.
+
+(* before the F4b fix: p* from a node on a 2-cycle *)
+Lemma hist_ev_mul_refuted :
+  let g : graph := [(1, 3, 2); (2, 3, 1)]%N in
+  hist_ev_mul g (fuel g) (ev_iri g 3%N) ZeroOrMore (Some 1%N) None = Ok [(1, 1); (1, 2); (1, 1)]%N
+  /\ ev_mul g (fuel g) (ev_iri g 3%N) ZeroOrMore (Some 1%N) None = Ok [(1, 1); (1, 2)]%N.
+Proof. vm_compute. split; reflexivity. Qed.
 
 (* ---------------------------------------------------------------- histories *)
 Theorem h_spec_model steps : forall g,
